@@ -90,6 +90,17 @@ for _init, _read, _write, _want in _SLOT:
 EXPECT.append({"src": "slot = [0]\nr = []\nfunc rec(x) { r += x }\nfunc f() { for i in [10, 20, 30] { slot[0] = i; defer rec(slot[0]) }; slot[0] = 1; return 5 }\nx = f()\nr += x\nr", "field": "result",
                "want": "[i:30,i:20,i:10,i:5]", "why": "defers registered in a loop from one reused slot keep the value of their own iteration, LIFO"})
 
+# deferred calls do not alter the invocation's result: also when the result was read from a place the deferred call writes to
+for _init, _read, _write, _want in _SLOT:
+    EXPECT.append({"src": "%s\nfunc f() { defer func() { %s }(); return %s }\nf()" % (_init, _write, _read), "field": "result", "want": _want,
+                   "why": "the result is the value at the return statement, whatever a deferred call does afterwards to the place it was read from"})
+    EXPECT.append({"src": "%s\nfunc f() { defer func() { %s }(); return %s }\nx = f()\nx" % (_init, _write, _read), "field": "result", "want": _want,
+                   "why": "the same, the result assigned by the caller"})
+    EXPECT.append({"src": "%s\nfunc f() { defer func() { %s }(); if true { for i in [1] { return %s } } }\n[f()]" % (_init, _write, _read), "field": "result", "want": "[%s]" % _want,
+                   "why": "the same, return from nested blocks, the result used as a list element"})
+    EXPECT.append({"src": "%s\nfunc f() { defer func() { %s }(); return %s, 2 }\nx, y = f()\nx" % (_init, _write, _read), "field": "result", "want": _want,
+                   "why": "the same with a return list"})
+
 
 def run(tier, seed, replay=None):
     return interpcheck.run_interp_check(
